@@ -90,7 +90,7 @@ def gen_shape(rng):
     return order, kn, rs, comb
 
 
-def gen_data(rng, n, order, kn, rs, comb, dist):
+def gen_data(rng, n, order, kn, rs, comb, dist, counts=None):
     """n records as one bytes object.  dist: how many distinct keys / which input order."""
     kb = keybytes(order, kn, rs)
     if dist == "alleq":
@@ -112,7 +112,24 @@ def gen_data(rng, n, order, kn, rs, comb, dist):
         ws = [rng.choice([rng.randrange(vocab), rng.randrange(vocab), 0xFFFFFFFF, 0x80000000, 0x7FFFFFFF,
                           rng.getrandbits(32)]) if rng.random() < 0.15 else rng.randrange(vocab) for _ in range(kn)]
         return struct.pack("<%dI" % kn, *ws)
-    if nkeys is not None:
+    keys = None
+    if dist == "blockdistinct" and counts:
+        # every chain block duplicate-free, the same few keys in every block (hypothesis of the duplicate-free clause)
+        cap = max(counts)
+        pool, seen, tries = [], set(), 0
+        while len(pool) < cap + rng.choice([0, 1, 3]) and tries < 20 * cap + 100:
+            k = rand_key()
+            tries += 1
+            if k not in seen:
+                seen.add(k)
+                pool.append(k)
+        if len(pool) >= cap:
+            keys = []
+            for cnt in counts:
+                keys += rng.sample(pool, cnt)
+    if keys is not None:
+        pass
+    elif nkeys is not None:
         pool = [rand_key() for _ in range(nkeys)]
         keys = [rng.choice(pool) for _ in range(n)]
     else:
@@ -130,6 +147,15 @@ def gen_data(rng, n, order, kn, rs, comb, dist):
         recs.sort(key=kf)
     elif dist == "reversed":
         recs.sort(key=kf, reverse=True)
+    elif dist == "nearsorted":
+        # ascending, except that the last record of every chain block belongs a few places earlier
+        recs.sort(key=kf)
+        off = 0
+        for cnt in (counts or [len(recs)]):
+            if cnt >= 3:
+                j = off + rng.randrange(1, cnt - 1)
+                recs.insert(off + cnt - 1, recs.pop(j))
+            off += cnt
     return b"".join(recs)
 
 
@@ -152,7 +178,9 @@ def gen_case(rng, tier, idx):
         if rs > 16:       # keep the biggest cases to small records (driver time)
             order, kn, rs, comb = rng.choice([("int", 8, 8, "none"), ("int", 4, 12, "count"), ("suffix", 2, 16, "real"),
                                               ("bytes", 0, 12, "none"), ("prefix", 3, 12, "none")])
-    dist = rng.choice(["free", "free", "heavy", "heavy", "half", "alleq", "sorted", "reversed"])
+    dist = rng.choice(["free", "free", "heavy", "heavy", "half", "alleq", "sorted", "reversed", "nearsorted"])
+    if comb != "none" and rng.random() < 0.35:
+        dist = "blockdistinct"
     # ---- chain: how many blocks
     target_blocks = rng.choice([1, 1, 2, 2, 3, 4, 5, 8, 13, 16, 17, 40, 100, 300])
     if n > 40000:
@@ -217,7 +245,7 @@ def gen_case(rng, tier, idx):
 
 def case_data(c):
     import random
-    return gen_data(random.Random(c["dseed"]), c["n"], c["order"], c["kn"], c["rs"], c["comb"], c["dist"])
+    return gen_data(random.Random(c["dseed"]), c["n"], c["order"], c["kn"], c["rs"], c["comb"], c["dist"], c.get("counts"))
 
 
 def op_line(c, path, out="-"):
